@@ -391,6 +391,17 @@ pub fn run(args: &Args) -> Report {
             cases.push(Case { try_unbounded: false, max_k: u32::MAX, label: format!("A:[{}] B:[{}]", op_str(a), op_str(b)), exec: Box::new(move |r| exec(&a2, &b2, false, r)) });
         }
     }
+    // longer histories of one shape, in both tiers: one end half-closes and lets go of the stream, the other end reads to
+    // end-of-stream and only THEN writes several times: the first write may still go out (nobody has told it yet), the
+    // Reset that comes back is the only abort signal it ever gets, and every write after it must fail
+    for a in [vec![Op::ReadToEof(3), Op::W(2), Op::W(2)], vec![Op::ReadToEof(3), Op::W(2), Op::WV(vec![1, 0, 1])], vec![Op::ReadToEof(3), Op::W(2), Op::W(2), Op::W(2)], vec![Op::ReadToEof(3), Op::W(2), Op::Shutdown]] {
+        for b in [vec![Op::Shutdown], vec![Op::W(2), Op::Shutdown]] {
+            let (a2, b2) = (a.clone(), b.clone());
+            cases.push(Case { try_unbounded: false, max_k: u32::MAX, label: format!("A:[{}] B:[{}]", op_str(&a), op_str(&b)), exec: Box::new(move |r| exec(&a2, &b2, false, r)) });
+            let (a2, b2) = (a.clone(), b.clone());
+            cases.push(Case { try_unbounded: false, max_k: u32::MAX, label: format!("A:[{}] B:[{}]", op_str(&b), op_str(&a)), exec: Box::new(move |r| exec(&b2, &a2, false, r)) });
+        }
+    }
     rep.bounds.insert("history_length_per_end".into(), serde_json::json!(len));
     rep.bounds.insert("histories_per_end".into(), serde_json::json!(hs.len()));
     rep.bounds.insert("alphabet".into(), serde_json::json!(op_str(&alphabet())));
